@@ -183,7 +183,8 @@ def improve_node_matrix_constraint(pomdp, V, node, *, solver=Solvers.scipy_lp, s
     # HACK: for actions with near-0 probabilities, we code in a uniform distribution over next internal states since
     # the above division by a near-0 p(a|s) usually means this doesn't sum to 1 because of numerical errors.
     # We mostly do this because we check that these distributions sum to 1 in other methods.
-    observation_strategy[np.isclose(c_a, np.zeros(c_a.shape))] = 1/ncontroller
+    # (the LP solver's feasibility tolerance is 1e-7, so an action probability of that size is a numerical zero)
+    observation_strategy[np.isclose(c_a, np.zeros(c_a.shape), atol=1e-6)] = 1/ncontroller
     assert np.allclose(observation_strategy.sum(-1), 1)
 
     def add_to_fsc(fsc_action, fsc_state, *, inplace=True):
